@@ -89,6 +89,13 @@ def gen_cases(tier, seed):
         if k % 3 == 0:
             drive["currents"]["persistent"] = True
         cases.append({"device": dev, "options": o, "drive": drive, "monitors": ["charge"], "weak": True, "cost": 8})
+    for k in range(2 if tier == "quick" else 10):
+        # a contact on the rim of a HOLE (Corbino disk): the current enters through hole edges and leaves through the outer rim
+        dev = zoo.gen_corbino(rng, size="small")
+        o = S.base_options(rng, adaptive=bool(k % 2), steps=60)
+        o["terminal_psi"] = [0.0, "none"][(k // 2) % 2]
+        drive = {"A": S.field_spec(rng, dev, o, ["zero", "uniform"][k % 2], b=0.15), "currents": S.current_spec(rng, dev, o, ["const", "callable"][(k // 2) % 2], strength=0.1)}
+        cases.append({"device": dev, "options": o, "drive": drive, "monitors": ["charge"], "corbino": True, "cost": 8})
     return cases
 
 
